@@ -301,6 +301,15 @@ def r3(ctx, chk):
     ok = _re.search(r"\[(\w+) \+ '-' \+ region for \1 in languages\]", t2) is not None and "_filter_valid_locales(" in t2
     chk.ob(rule, "a region builds language-region locales filtered by the index", ok, "",
            key={"function": cl.key, "construct": "region locales"}, file=cl.file, function=cl.qual, line=cl.node.lineno)
+    # ... for EVERY region given: the branch is taken on the mere presence of a region (numeric UN M.49 regions such as 001, 150, 419 included)
+    comps = [n for n in iter_own_nodes(cl.node) if isinstance(n, ast.ListComp)]
+    for c in comps:
+        atoms = [(" ".join(ast.unparse(a).split()), p) for t, pol in enclosing_tests(cl.node, c) for a, p in conjuncts(t, pol)]
+        extra = [a for a, p in atoms if not (p and a in ("region", "region is not None", "region != ''"))]
+        chk.ob(rule, "the region branch is taken whenever a region is given", bool(atoms) and not extra,
+               "region locales are built only under %s: a region that fails the extra condition is silently ignored and the bare language "
+               "is used (its date order and words, not the locale's)" % [a for a, _ in atoms],
+               key={"function": cl.key, "construct": "region guard"}, file=cl.file, function=cl.qual, line=c.lineno)
     iv = ix.func("dateparser.languages.loader:_isvalidlocale")
     t3 = " ".join(ast.unparse(iv.node).split())
     ok = _re.search(r"(\w+) not in language_order", t3) is not None and _re.search(r"language_locale_dict\[(\w+)\]", t3) is not None \
